@@ -658,9 +658,9 @@ def run(ctx):
     if model:
         bounds = [(3, 2, ctx.scale(12, 14), False)]
         if thorough:
-            bounds += [(3, 2, 12, True), (2, 3, 15, False), (5, 1, 22, False)]
+            bounds += [(3, 2, 12, True), (2, 3, 14, False), (4, 1, 20, False)]
         else:
-            bounds += [(2, 2, 10, True), (4, 1, 16, False)]
+            bounds += [(2, 2, 10, True), (3, 1, 16, False)]
         for (ms, mb, dp, ft) in bounds:
             seen, leaves, failing, trunc = explore(model, ms, mb, dp, ft, deadline=t0 + ctx.scale(45, 900))
             name = "sends<=%d breaks<=%d depth<=%d%s" % (ms, mb, dp, " +write-errors" if ft else "")
